@@ -49,7 +49,14 @@ type KVTermCount struct {
 
 // NewIndex create new key value index
 func NewIndex(kv kvi.KVInterface) *KVIndex {
-	return &KVIndex{KV: kv, Fields: make(map[string][]string)}
+	idx := &KVIndex{KV: kv, Fields: make(map[string][]string)}
+	// the set of indexed fields is persisted (f|field keys); pick it up again
+	// when an existing store is reopened, otherwise documents added after a
+	// restart are not indexed
+	for _, path := range idx.ListFields() {
+		idx.Fields[path] = strings.Split(path, ".")
+	}
+	return idx
 }
 
 // AddField add new field to be indexed
